@@ -42,8 +42,12 @@ fn walk(bytes: &[u8]) -> (Vec<WMsg>, usize, bool) {
     let mut out = vec![];
     let mut pos = 0usize;
     loop {
-        if bytes.len() - pos < 4 {
+        if bytes.len() == pos {
             return (out, 0, false);
+        }
+        if bytes.len() - pos < 4 {
+            // the stream ends inside a length prefix
+            return (out, 0, true);
         }
         let mut prefix = 4;
         let mut l = [bytes[pos], bytes[pos + 1], bytes[pos + 2], bytes[pos + 3]];
@@ -903,12 +907,9 @@ fn build_batches(c: &RtCase) -> (SchemaRef, Vec<RecordBatch>, String) {
     let ncols = if rng.chance(1, 10) { 0 } else { 1 + rng.usize(4) };
     let depth = rng.usize(3);
     let mut tags = String::new();
-    let dom = Dom {
-        ree: c.ver == 5 || c.dom == "ree-v4",
-        sliced_children: false,
-        ree_sliced: c.dom == "ree-empty",
-        union_sliced: c.dom == "nested-union",
-    };
+    // (run ends under V4, run ends / unions below sliced parents used to be separate known-defect
+    // domains; they are repaired and part of the standard domain now)
+    let dom = Dom { ree: true, sliced_children: false, ree_sliced: true, union_sliced: true };
     let mut fields: Vec<Field> = (0..ncols).map(|i| tfield(&mut rng, &format!("c{i}"), depth, dom)).collect();
     // the special domains force the feature they are about into column 0
     if c.dom != "std" {
@@ -950,12 +951,8 @@ fn build_batches(c: &RtCase) -> (SchemaRef, Vec<RecordBatch>, String) {
         }
         let mut cols = vec![];
         for (i, f) in schema.fields().iter().enumerate() {
-            let (mut pre, mut post) = if rng.chance(1, 2) { (rng.usize(10), rng.usize(4)) } else { (0, 0) };
+            let (mut pre, post) = if rng.chance(1, 2) { (rng.usize(10), rng.usize(4)) } else { (0, 0) };
             // a zero-length slice at a non-zero offset of a run-end array is the `ree-empty` domain
-            if rows == 0 && c.dom != "ree-empty" && has_type(f.data_type(), &|t| matches!(t, DataType::RunEndEncoded(_, _))) {
-                pre = 0;
-                post = 0;
-            }
             if c.dom == "ree-empty" && i == 0 && rows == 0 {
                 pre = 1 + rng.usize(5);
             }
@@ -1263,7 +1260,8 @@ fn run_rt(t: &[&str]) -> (String, Option<String>, String) {
             let mut out = vec![];
             let mut pos = 0;
             let dense = schema.fields().iter().any(|f| has_type(f.data_type(), &|t| matches!(t, DataType::Union(_, UnionMode::Dense))));
-            let whole = (dense || c.reader == "decoder-req") && c.dom != "decoder-unaligned";
+            let _ = dense;
+            let whole = c.reader == "decoder-req";
             // `with_require_alignment(true)` is satisfiable when the whole stream sits in one aligned buffer
             let mut d = StreamDecoder::new().with_require_alignment(c.reader == "decoder-req" && c.align >= 16 && c.codec == "none");
             while pos < bytes.len() {
@@ -1322,6 +1320,33 @@ fn run_probe(name: &str) -> String {
         "ree-empty-slice" => {
             let a = RunArray::<Int32Type>::try_new(&Int32Array::from(vec![2, 4]), &Int32Array::from(vec![7, 8])).unwrap();
             (Arc::new(a.slice(2, 0)), 5)
+        }
+        "dense-union-unaligned" => {
+            let fields = UnionFields::try_new(vec![0, 1], vec![Field::new("a", DataType::Int32, true), Field::new("b", DataType::Int32, true)]).unwrap();
+            let u = UnionArray::try_new(fields, vec![0i8, 1, 0].into(), Some(vec![0, 0, 1].into()), vec![Arc::new(Int32Array::from(vec![10, 11])), Arc::new(Int32Array::from(vec![20]))]).unwrap();
+            let schema = Arc::new(Schema::new(vec![Field::new("c", u.data_type().clone(), true)]));
+            let batch = RecordBatch::try_new(schema.clone(), vec![Arc::new(u)]).unwrap();
+            let mut w = StreamWriter::try_new_with_options(Vec::new(), &schema, opts(8, false, 5)).unwrap();
+            w.write(&batch).unwrap();
+            w.finish().unwrap();
+            let bytes = w.into_inner().unwrap();
+            // the whole stream in one buffer that starts at an odd address
+            let mut v = vec![0u8; 1];
+            v.extend_from_slice(&bytes);
+            let mut buf = Buffer::from_vec(v).slice(1);
+            let mut d = StreamDecoder::new();
+            let mut got = vec![];
+            while !buf.is_empty() {
+                match d.decode(&mut buf) {
+                    Ok(Some(b)) => got.push(b),
+                    Ok(None) => break,
+                    Err(e) => return format!("READ-{}", err_class(&e)),
+                }
+            }
+            return match compare_batches(&[batch], &got) {
+                None => "ok".into(),
+                Some(why) => format!("MISMATCH({})", why.replace(' ', "_")),
+            };
         }
         "dict-listview-resized" | "dict-list-resized" => {
             // two batches whose dictionaries differ only in the size of a list(-view) element, with a null slot
@@ -1822,7 +1847,7 @@ fn run_proj(t: &[&str]) -> (String, Option<String>, String) {
     let seed: u64 = t[5].parse().unwrap();
     let mut rng = Rng::new(seed ^ 0x9A07);
     let skip_t = if t[4] == "r" {
-        gen_type(&mut rng, 2, Dom { ree: ver == 5, sliced_children: false, ree_sliced: false, union_sliced: false })
+        gen_type(&mut rng, 2, Dom { ree: true, sliced_children: false, ree_sliced: true, union_sliced: true })
     } else {
         skip_types()[t[4].parse::<usize>().unwrap()].clone()
     };
@@ -2139,10 +2164,8 @@ fn gen_case(rng: &mut Rng) -> (String, String) {
         // projection family: every grid type as the skipped column x V4/V5 x file/stream
         let n = skip_types().len();
         let kind = if rng.chance(1, 5) { "r".to_string() } else { rng.usize(n).to_string() };
-        let mut ver = if rng.bool() { 4 } else { 5 };
-        if kind != "r" && has_type(&skip_types()[kind.parse::<usize>().unwrap()], &|x| matches!(x, DataType::RunEndEncoded(_, _))) {
-            ver = 5; // run ends under V4 are the `ree-v4` known-defect domain
-        }
+        let ver = if rng.bool() { 4 } else { 5 };
+
         let rd = if rng.bool() { "file" } else { "stream" };
         return (format!("C04 proj {} {} {} {}", rd, ver, kind, rng.next_u64() >> 16), format!("op:proj pr:{} pv{} nt", rd, ver));
     }
@@ -2207,7 +2230,7 @@ fn gen_case(rng: &mut Rng) -> (String, String) {
         }
         6 => {
             if rng.chance(1, 4) {
-                let name = *rng.pick(&["ree-v4", "ree-v5", "ree-empty-slice", "union-in-sliced-list-sparse", "union-in-sliced-list-dense", "union-in-list-unsliced", "file-continue-after-error-delta", "file-continue-after-error-resend", "dict-listview-resized", "dict-list-resized"]);
+                let name = *rng.pick(&["ree-v4", "ree-v5", "ree-empty-slice", "union-in-sliced-list-sparse", "union-in-sliced-list-dense", "union-in-list-unsliced", "file-continue-after-error-delta", "file-continue-after-error-resend", "dict-listview-resized", "dict-list-resized", "dense-union-unaligned"]);
                 (format!("C04 probe {}", name), "op:probe".into())
             } else {
                 (format!("C04 allvalid {}", rng.usize(70)), "op:allvalid".into())
@@ -2381,9 +2404,7 @@ fn dense_cases() -> Vec<(String, String)> {
     for (k, t) in grid.iter().enumerate() {
         let ree = has_type(t, &|x| matches!(x, DataType::RunEndEncoded(_, _)));
         for ver in [4, 5] {
-            if ree && ver == 4 {
-                continue;
-            }
+            let _ = ree;
             let rd = if (k + ver) % 2 == 0 { "file" } else { "stream" };
             v.push((format!("C04 proj {} {} {} {}", rd, ver, k, 800_000 + k), format!("op:proj dense pr:{} pv{} nt", rd, ver)));
         }
